@@ -47,6 +47,13 @@ def addAll (s : State α) (n : Nat) : State α :=
 def restore [OfScientific α] (F : Fns α) (k : Kind) (c : Ckpt α) : State α :=
   addAll { o := loadConfigs c.cu c.cf (fresh F k), ps := c.params.map loadParam } c.params.length
 
+/-- the state a training program starts from: an optimizer with the given
+hyper-parameters and settings, parameters with the given initial values, all
+of them registered -/
+def initState (k : Kind) (fields : List α) (b : Base α) (vals : List (List α)) : State α :=
+  addAll { o := { kind := k, fields := fields, base := b, reg := [] },
+           ps := vals.map (fun v => { valid := true, value := v, grad := zeros v.length, stats := [] }) } vals.length
+
 /-- the gradients of step `t` are a function `G t` of the current values (a
 deterministic model on deterministic data) -/
 def setGrads (gs : List (List α)) (s : State α) : State α :=
